@@ -835,7 +835,8 @@ class TimedCompartment(Compartment):
         self.dt = dt
         assert np.all(self.parameter.vals == self.parameter.vals[0]), "Duration parameter value cannot vary over time"
         duration = self.parameter.vals[0] * self.parameter.timescale * self.parameter.scale_factor
-        self._vals = np.empty((max(1, math.ceil(duration / dt)), tvec.size), order="F")  # Fortran/column-major order should be faster for summing over lags to get `vals`
+        # The relative tolerance makes a duration of k steps up to floating point error give k rows e.g. (5/12)/(1/12) = 5.000000000000001
+        self._vals = np.empty((max(1, math.ceil(duration / dt * (1 - 1e-12))), tvec.size), order="F")  # Fortran/column-major order should be faster for summing over lags to get `vals`
         self._vals.fill(np.nan)
 
     def resolve_outflows(self, ti: int) -> None:
@@ -1496,7 +1497,7 @@ class TimedLink(Link):
             parameter = self.pop.par_lookup[self.source.duration_group]
             assert np.all(parameter.vals == parameter.vals[0]), "Duration parameter value cannot vary over time"
             duration = parameter.vals[0] * parameter.timescale * parameter.scale_factor
-            self._vals = np.empty((math.ceil(duration / dt), tvec.size), order="F")  # Fortran/column-major order should be faster for summing over lags to get `vals`
+            self._vals = np.empty((math.ceil(duration / dt * (1 - 1e-12)), tvec.size), order="F")  # Fortran/column-major order should be faster for summing over lags to get `vals`
         self._vals.fill(np.nan)
 
     def update(self, ti: int, converted_frac: float) -> None:
